@@ -191,7 +191,9 @@ def gen_raw(tier, rng):
     for _ in range(n_rand):
         rows, cols = rng.choice([(1, rng.randint(1, 6)), (rng.randint(1, 6), 1),
                                  (rng.randint(2, 6), rng.randint(2, 6)), (rng.randint(2, 4), rng.randint(2, 4))])
-        nenc = rng.randint(1, 3)
+        # a quarter of the cases use 4-5 encodings: only then can two keys have different partners that
+        # appear only as values (1 -> 3, 2 -> 4), where a closure that shares one reverse set leaks pairs
+        nenc = rng.randint(1, 3) if rng.random() < 0.75 else rng.randint(4, 5)
         encs = list(range(1, nenc + 1))
         ov = rand_ov(rng, encs) if rng.random() < 0.8 else []
         n = rng.randint(1, 6)
